@@ -566,7 +566,7 @@ func (c *Catalog) AddJsonRpcMethod(d directive.Directive) *jerr.JApiError {
 		return d.KeywordError(err.Error())
 	}
 
-	if c.Interactions.Has(rpcId) {
+	if c.Interactions.Has(rpcId) || c.hasInteractionWithID(rpcId.String()) {
 		return d.KeywordError(fmt.Sprintf("method is already defined in resource %s", rpcId.String()))
 	}
 
@@ -583,6 +583,16 @@ func (c *Catalog) AddJsonRpcMethod(d directive.Directive) *jerr.JApiError {
 	c.Interactions.Set(rpcId, in)
 
 	return nil
+}
+
+// hasInteractionWithID checks that there is an interaction with the same
+// textual identifier: the interactions are serialized under these identifiers,
+// and different pairs of method name and path can give the same identifier.
+func (c *Catalog) hasInteractionWithID(id string) bool {
+	_, ok := c.Interactions.Find(func(k InteractionID, _ Interaction) bool {
+		return k.String() == id
+	})
+	return ok
 }
 
 func (c *Catalog) AddJsonRpcParams(s Schema, d directive.Directive) error {
